@@ -38,6 +38,7 @@ func (a *OrStrategy) Compute(snapshots <-chan *asset.Snapshot) <-chan Action {
 
 	sources := ActionSources(a.Strategies, snapshots)
 
+	helper.VerifStage("Vote", len(sources), []any{sources}, []any{result})
 	go func() {
 		defer close(result)
 
